@@ -71,11 +71,19 @@ def run(ctx):
     if errors:
         ctx.broken.append("correspondence evaluation failed in Coq: %s" % errors[0][1][-400:])
     if fails:
+        # search for a concrete failing input: the verified independent reader, run on the real text of the models whose
+        # tokens differ, either gives back the model (a harmless change of layout) or shows what the text denotes instead
+        sub = fails[:200]
+        rd, e3 = C.eval_cases(ctx, "tierd", IMP, "c17", [lines[i] for i in sub], fn="c17_reader_failures", shard=50)
+        if not e3:
+            for j in rd[:5]:
+                i = sub[j]
+                fails_oracle.append({"kind": "lp-text-read-back-differs-from-model", "class": "unclassified", "input": ms[i]["text"], "names": [], "lp": ms[i]["lp"][:1500]})
         i = fails[0]
         mo = C.eval_term(ctx, IMP, "c17_out %s" % lines[i])
         ctx.broken.append("correspondence to_lp_format (tokenised) vs Model.LpFormat.lp_write / independent reader broken on %d of %d models; first: `%s`; LP text: %s ; model says %s"
                           % (len(fails), len(lines), ms[i]["text"][:300], ms[i]["lp"].replace("\n", " | ")[:400], " ".join(mo.split())[:500]))
-    new = C.triage_failures(ctx, fails_oracle, lambda f: "%s: `%s` names %s" % (f["kind"], f["input"][:200], f["names"]))
+    new = C.triage_failures(ctx, fails_oracle, lambda f: "%s: `%s` names %s%s" % (f["kind"], f["input"][:200], f["names"], (" LP text: " + f["lp"].replace("\n", " | ")[:300]) if f.get("lp") else ""))
     cov.update({
         "trusted_base": C.TRUSTED_BASE_COMMON + [
             "axioms: " + (", ".join(cov.get("axioms_reported_by_Print_Assumptions", [])) or "none"),
